@@ -17,9 +17,11 @@ model("Task", module="usim._primitives.task",
               "_done": REF("Done"), "__volatile__": BOOL, "parent": REF("Scope")},
       ghost={"reported": BOOL,         # parent.__child_finished__ was called for this task
              "linked": BOOL,           # Scope.do has put it into the parent's child list
-             "cpos": INT, "vpos": INT},   # its index in parent._children / parent._volatile_children
+             "cpos": INT, "vpos": INT,    # its index in parent._children / parent._volatile_children
+             # the start date the task was created with (closure variables `delay` / `at` of its wrapper)
+             "start_delay": OPT(REAL), "start_at": OPT(REAL)},
       ghost_defaults={"reported": False, "linked": False},
-      final=["payload", "__runner__", "_done", "__volatile__", "parent"])
+      final=["payload", "__runner__", "_done", "__volatile__", "parent", "start_delay", "start_at"])
 model("Done", module="usim._primitives.task",
       fields={"_task": REF("Task"), "_value": BOOL, "_inverse": REF("NotDone")}, final=["_task", "_inverse"])
 model("NotDone", module="usim._primitives.task", fields={"_done": REF("Done")}, final=["_done"])
@@ -160,7 +162,7 @@ contract("usim._primitives.task.Task.__init__",
          ensures=["self.payload is payload", "self.parent is parent", "self.__volatile__ == volatile", "self._result is None",
                   "len(self._cancellations) == 0", "not self._done._value", "len(self._done._waiting) == 0",
                   "fresh_obj(self.__runner__) and self.__runner__.state == 0 and self.__runner__.task is self",
-                  "not self.reported and not self.linked",
+                  "not self.reported and not self.linked", "self.start_delay == delay and self.start_at == at",
                   "self._done._task is self and self._done._inverse._done is self._done and len(self._done._inverse._waiting) == 0",
                   "fresh_obj(self._done) and fresh_obj(self._done._inverse)",
                   # nothing that existed before is touched
@@ -168,8 +170,8 @@ contract("usim._primitives.task.Task.__init__",
                   "forall(Done, lambda d: implies(not fresh_obj(d), d._value == old(d._value) and d._task is old(d._task) and d._inverse is old(d._inverse)))",
                   "forall(NotDone, lambda d: implies(not fresh_obj(d), d._done is old(d._done)))",
                   "forall(coroutine, lambda c: implies(not fresh_obj(c), c.state == old(c.state) and c.task is old(c.task)))"],
-         ghost_exit=["self.__runner__.task = self"],
-         modifies=["Task.payload@self", "Task.parent@self", "Task.__volatile__@self", "Task._result@self", "Task._cancellations@self",
+         ghost_exit=["self.__runner__.task = self\nself.start_delay = delay\nself.start_at = at"],
+         modifies=["Task.start_delay@self", "Task.start_at@self", "Task.payload@self", "Task.parent@self", "Task.__volatile__@self", "Task._result@self", "Task._cancellations@self",
                    "Task._done@self", "Task.__runner__@self", "coroutine.task", "coroutine.state",
                    "Done._task", "Done._value", "Done._inverse", "NotDone._done", "Notification._waiting"],
          check_frame=False,
@@ -179,6 +181,8 @@ contract("usim._primitives.task.Task.__init__.payload_wrapper",
          params={"self": REF("Task"), "delay": OPT(REAL), "at": OPT(REAL)},
          # K8/K-deliver for the signal-less first activation: the runner starts exactly once, as the running activity
          assume_entry=["self.__runner__ is me", "loop.activity is me", "self.__runner__.state == 0", "self.linked and not self.reported",
+                       # closure binding: the wrapper's free variables are the constructor's arguments
+                       "delay == self.start_delay and at == self.start_at",
                        "implies(delay is not None, delay > 0)", "implies(at is not None, at > loop.time)", "delay is None or at is None"],
          ghost_entry=["self.__runner__.state = 1"],
          ghost_any_exit=["self.__runner__.state = 3"],
